@@ -301,6 +301,26 @@ func c09GatedPairs(c *hx.Ctx) []*scenario {
 }
 
 // the schedules of repaired defects, replayed by gating: they must pass now
+// processConnack: the stored packets are listed and re-sent before the client counts as connected.
+// The listing (or the first / the second re-send) is held back; a Publish issued by whoever waits on
+// the connect future must not get in between (clause resend_before_new)
+func resendBeforeNew() []*scenario {
+	var out []*scenario
+	for _, g := range []gateSpec{{kind: "all", k: 2, name: "g"}, {kind: "send", k: 5, name: "g"}, {kind: "send", k: 6, name: "g"}} {
+		for _, q := range []byte{0, 1, 2} {
+			out = append(out, &scenario{name: fmt.Sprintf("regress/resend-before-new-%s%d-q%d", g.kind, g.k, q), gates: []gateSpec{g},
+				steps: cat(opening(cfgPersist, 1, false), []step{sPub(2, 1), sPub(3, 2), sDrop(), sIdle()},
+					[]step{sNew(cfgPersist), sConnect(4, cfgPersist), sConnack(true, 0), sWaitGate("g"), {op: "trywaitfut", c: 4, n: 100},
+						sPub(5, q), sRelease("g"), sWaitFut(4), sIdle(), sB(&packet.Puback{ID: 1}), sB(&packet.Pubrec{ID: 2}), sIdle(), sDisc(6, false)})})
+		}
+		out = append(out, &scenario{name: fmt.Sprintf("regress/resend-before-new-%s%d-sub", g.kind, g.k), gates: []gateSpec{g},
+			steps: cat(opening(cfgPersist, 1, false), []step{sPub(2, 1), sPub(3, 2), sDrop(), sIdle()},
+				[]step{sNew(cfgPersist), sConnect(4, cfgPersist), sConnack(true, 0), sWaitGate("g"), {op: "trywaitfut", c: 4, n: 100},
+					sSub(5, 1), sRelease("g"), sWaitFut(4), sIdle(), sDisc(6, false)})})
+	}
+	return out
+}
+
 func c09Regress(c *hx.Ctx) []*scenario {
 	var out []*scenario
 	for ci, cfg := range []cfgT{cfgPersist, cfgDefault} {
@@ -368,6 +388,18 @@ func c09Regress(c *hx.Ctx) []*scenario {
 	out = append(out, &scenario{name: "observe/spurious-suback-erases-publish", steps: cat(opening(cfgPersist, 1, false),
 		[]step{sPub(2, 1), sB(&packet.Suback{ID: 1, ReturnCodes: []packet.QOS{0}}), sWaitFut(2), sDrop(), sIdle()},
 		opening(cfgPersist, 3, true), []step{sDisc(4, false)})})
+	out = append(out, resendBeforeNew()...)
+	// Close() tears the client down inside the window: the processor must not turn the state back to connected
+	// afterwards (it would run a second cleanup and report an error through the callback after a clean Close)
+	out = append(out,
+		&scenario{name: "regress/close-inside-resend-window-empty", gates: []gateSpec{{kind: "all", k: 1, name: "g"}, {kind: "close", k: 1, post: true, name: "c"}},
+			steps: []step{sNew(cfgPersist), sConnect(1, cfgPersist), sConnack(false, 0), sWaitGate("g"), sAsync(sClose(2)), sWaitGate("c"),
+				sRelease("g"), {op: "trywaitfut", c: 1, n: 100}, sRelease("c"), sWaitRet(2), sWaitFut(1)}},
+		&scenario{name: "regress/close-inside-resend-window-stored", gates: []gateSpec{{kind: "all", k: 2, name: "g"}, {kind: "close", k: 2, post: true, name: "c"}},
+			steps: cat(opening(cfgPersist, 1, false), []step{sPub(2, 1), sPub(3, 2), sDrop(), sIdle()},
+				[]step{sNew(cfgPersist), sConnect(4, cfgPersist), sConnack(true, 0), sWaitGate("g"), sAsync(sClose(5)), sWaitGate("c"),
+					sRelease("g"), {op: "trywaitfut", c: 4, n: 100}, sRelease("c"), sWaitRet(5), sWaitFut(4)})},
+	)
 	out = append(out, &scenario{name: "regress/D8-reset", failAt: map[string]int{"reset": 1}, steps: []step{sNew(cfgDefault), sConnect(1, cfgDefault), sClose(2)}})
 	return out
 }
@@ -675,6 +707,7 @@ func c10Scenarios(c *hx.Ctx) []*scenario {
 
 func c15Scenarios(c *hx.Ctx) []*scenario {
 	var out []*scenario
+	out = append(out, resendBeforeNew()...)
 	modes := []struct {
 		tag string
 		cfg cfgT
